@@ -3,6 +3,8 @@ from typing import Optional
 import numpy as np
 from scipy.optimize import root_scalar, root, fixed_point
 
+from ._validation import validated
+
 
 # angle brackets for numerical solvers to prevent divide by zero
 MIN_ANGLE = 1e-6
@@ -11,6 +13,10 @@ MAX_ANGLE = np.pi / 2 - MIN_ANGLE
 __all__ = ["solve_box_like", "solve_r123", "solve_r124", "solve_r1234"]
 
 
+@validated(
+    exactly_two=("r2", "depth", "width"),
+    at_most_one=("flank_angle", "flank_width", "flank_height", "flank_length"),
+)
 def solve_r124(
     r1: float,
     r2: Optional[float],
@@ -138,6 +144,7 @@ def solve_r124(
     )
 
 
+@validated(at_most_one=("flank_angle", "flank_width", "flank_height", "flank_length"))
 def solve_r123(
     r1: float,
     r2: float,
@@ -255,6 +262,7 @@ def solve_r123(
     )
 
 
+@validated(at_most_one=("flank_angle", "flank_width", "flank_height", "flank_length"))
 def solve_r1234(
     r1: float,
     r2: float,
@@ -420,6 +428,7 @@ def solve_r1234(
     )
 
 
+@validated(exactly_two=("ground_width", "even_ground_width", "usable_width", "flank_angle"))
 def solve_box_like(
     r2: float,
     r4: float,
